@@ -1,5 +1,209 @@
-From CppcmsV Require Import Base.Tac C12.Defs.
+(* C12 -- uploaded form data is reconstructed exactly under any chunking, within limits.
+   Only property theorems here, each closed by `exact <lemma>`; proofs are in Proofs.v (chunking),
+   Matcher.v (boundary matcher), Limits.v (limits / status codes), Link.v (generated-from-source leafs).
+   Model: Defs.v (per-byte step of multipart_parser::consume, header parser, request-level driver
+   on_content_start / on_content_progress, urlencoded splitter). *)
+From CppcmsV Require Import Base.Tac Base.CSem Base.Sweep C12.Defs C12.Proofs C12.Matcher C12.Limits C12.Link gen.Gen_c12.
 Local Open Scope N_scope.
-Theorem placeholder : separator 40 = true.
-Proof. reflexivity. Qed.
-Print Assumptions placeholder.
+
+(* ------------------------------------------------------------------------------------------ *)
+(* 1. chunking: the result of a multipart request (status, or the list of entries with names,    *)
+(*    file names, MIME types and contents in order) does not depend on how the body bytes are    *)
+(*    cut into reads -- any number of chunks, empty chunks included, bytes beyond the declared   *)
+(*    length included                                                                            *)
+(* ------------------------------------------------------------------------------------------ *)
+Theorem chunk_indep : forall L ct declared chunks,
+  request_multipart L ct declared chunks = request_multipart L ct declared [concat chunks].
+Proof. exact request_chunk_indep. Qed.
+Print Assumptions chunk_indep.
+
+Theorem chunk_indep_two_partitions : forall L ct declared chunks1 chunks2,
+  concat chunks1 = concat chunks2 ->
+  request_multipart L ct declared chunks1 = request_multipart L ct declared chunks2.
+Proof. exact request_two_partitions. Qed.
+Print Assumptions chunk_indep_two_partitions.
+
+(* parser level: feeding a ++ b in one consume-loop = feeding a, then b (the two chunk-sensitive
+   spots, content_partial at a chunk end and the eof test, do not change the outcome) *)
+Theorem parser_cut_anywhere : forall bnd lim a b s, inv s -> b <> [] ->
+  feed bnd lim s (a ++ b) = then_feed bnd lim (feed bnd lim s a) b.
+Proof. exact feed_app. Qed.
+Print Assumptions parser_cut_anywhere.
+
+(* the invariant used above holds initially and is preserved *)
+Theorem parser_invariant : inv init_state /\
+  (forall bnd lim a s s', inv s -> feed bnd lim s a = OGo s' -> inv s').
+Proof. split; [exact inv_init|exact feed_inv]. Qed.
+Print Assumptions parser_invariant.
+
+(* the traced driver run by the correspondence harness is the same function as the request-level feed *)
+Theorem harness_driver_is_feed : forall bnd ch s tr,
+  feed bnd None s ch = out_of_tout (fst (feed_trace bnd s ch tr)).
+Proof. exact feed_trace_feed. Qed.
+Print Assumptions harness_driver_is_feed.
+
+Definition ex_ct : list N :=   (* multipart/form-data; boundary=k *)
+  [109;117;108;116;105;112;97;114;116;47;102;111;114;109;45;100;97;116;97;59;32;98;111;117;110;100;97;114;121;61;107].
+Definition ex_parts : list part :=
+  [mkpart [97] None [] [13;10;45;120]; mkpart [102] (Some [120;46;98]) [97;47;98] [1;2;13;10;45;45;3]].
+Definition ex_body : list N := encode [107] ex_parts.
+Example chunk_indep_nonvacuous :
+  request_multipart (mklim 100 1000) ex_ct (length ex_body) (map (fun c => [c]) ex_body) = RReady (map file_of_part ex_parts) /\
+  request_multipart (mklim 100 1000) ex_ct (length ex_body) [firstn 60 ex_body; []; skipn 60 ex_body] = RReady (map file_of_part ex_parts) /\
+  request_multipart (mklim 100 1000) ex_ct (length ex_body) [ex_body] = RReady (map file_of_part ex_parts).
+Proof. repeat split; vm_compute; reflexivity. Qed.
+
+(* ------------------------------------------------------------------------------------------ *)
+(* 2. the hand-restarted boundary matcher                                                       *)
+(* ------------------------------------------------------------------------------------------ *)
+(* boundary = CR LF - - key with no CR in key (RFC 2046 bchars): for ANY content x that does not
+   contain the boundary -- partial look-alikes of any shape included -- the matcher run on
+   x ++ boundary ++ rest writes exactly x (after what was written before) and stops right after
+   the delimiter *)
+Theorem matcher_correct : forall key, ~ In 13 key -> forall x rest rout,
+  ~ occurs (make_boundary key) x ->
+  mrun (make_boundary key) 0 (x ++ make_boundary key ++ rest) rout = Some (rev rout ++ x, rest).
+Proof. exact mrun_finds. Qed.
+Print Assumptions matcher_correct.
+
+(* any boundary, any input: when the matcher stops, what it has written followed by the boundary
+   followed by the unread rest is exactly the input (nothing lost, nothing invented) *)
+Theorem matcher_sound : forall bnd, bnd <> [] -> forall input p rout out rest, (p < length bnd)%nat ->
+  mrun bnd p input rout = Some (out, rest) ->
+  rev rout ++ firstn p bnd ++ input = out ++ bnd ++ rest.
+Proof. exact mrun_sound. Qed.
+Print Assumptions matcher_sound.
+
+(* the CR-free hypothesis is needed: with key = CR LF - - b the content CR LF - - hides the delimiter *)
+Theorem matcher_needs_cr_free_key_refuted :
+  containsb bad_content (make_boundary bad_key) = false /\
+  mrun (make_boundary bad_key) 0 (bad_content ++ make_boundary bad_key) [] = None.
+Proof. exact matcher_misses_with_cr_in_key. Qed.
+Print Assumptions matcher_needs_cr_free_key_refuted.
+
+(* the header terminator matcher resets to 0 without restart: CR CR LF CR LF is not recognised
+   (malformed part header; outside well-formed input) *)
+Theorem header_terminator_no_restart_refuted : hterm 0 [13;13;10;13;10] = Some 2%nat.
+Proof. exact header_terminator_missed_after_cr. Qed.
+Print Assumptions header_terminator_no_restart_refuted.
+
+(* the matcher inside the parser: in the content state, a part content x free of the boundary is
+   stored byte for byte, the entry is completed at the delimiter, and parsing goes on with the rest;
+   the only other outcome is 413 for an oversized form field *)
+Theorem part_content_reconstructed : forall key lim, ~ In 13 key -> forall s x rest,
+  st s = SepBoundary -> pos s = 0%nat -> rest <> [] ->
+  ~ occurs (make_boundary key) x ->
+  feed (make_boundary key) lim s (x ++ make_boundary key ++ rest) =
+    let f := file_with_data (cur s) (rev x ++ f_rdata (cur s)) in
+    if size_ok lim f
+    then feed (make_boundary key) lim (mkst OneCrlfOrEof 0 (rhdr s) empty_file (f :: rfiles s) false) rest
+    else OStop 413.
+Proof. exact part_content_exact. Qed.
+Print Assumptions part_content_reconstructed.
+
+Example matcher_nonvacuous :   (* key "ab", content full of look-alikes: CR, CR LF -, CR LF - - a, CR CR LF - - a CR *)
+  let x := [13;13;10;45;13;10;45;45;97;13;13;10;45;45;97;13] in
+  containsb x (make_boundary [97;98]) = false /\
+  mrun (make_boundary [97;98]) 0 (x ++ make_boundary [97;98] ++ [45;45]) [] = Some (x, [45;45]).
+Proof. split; vm_compute; reflexivity. Qed.
+
+(* ------------------------------------------------------------------------------------------ *)
+(* 3. limits and status codes                                                                   *)
+(* ------------------------------------------------------------------------------------------ *)
+Theorem declared_length_over_multipart_limit_413 : forall L ct declared chunks,
+  declared <> 0%nat -> multipart_limit L < N.of_nat declared ->
+  request_multipart L ct declared chunks = RStatus 413.
+Proof. exact declared_over_limit. Qed.
+Print Assumptions declared_length_over_multipart_limit_413.
+
+Theorem missing_boundary_400 : forall L ct declared chunks,
+  declared <> 0%nat -> N.of_nat declared <= multipart_limit L -> ct_boundary ct = FOk [] ->
+  request_multipart L ct declared chunks = RStatus 400.
+Proof. exact no_boundary_400. Qed.
+Print Assumptions missing_boundary_400.
+
+(* entries are published iff the declared number of bytes arrived and they end with the closing
+   delimiter exactly on the last declared byte *)
+Theorem delivered_iff_exact_eof : forall bnd lim declared chunks fs,
+  req_loop bnd lim declared init_state chunks = RReady fs <->
+  (declared <> 0%nat /\ (declared <= length (concat chunks))%nat /\
+   exists s', feed bnd lim init_state (firstn declared (concat chunks)) = OEof s' /\ fs = rev (rfiles s')).
+Proof. exact ready_iff. Qed.
+Print Assumptions delivered_iff_exact_eof.
+
+(* a body accepted as a whole: every proper prefix declared as the whole body is refused with 400 ... *)
+Theorem shorter_than_wellformed_400 : forall bnd lim a b s', a <> [] -> b <> [] ->
+  feed bnd lim init_state (a ++ b) = OEof s' ->
+  req_loop bnd lim (length a) init_state [a] = RStatus 400.
+Proof. exact truncated_refused. Qed.
+Print Assumptions shorter_than_wellformed_400.
+
+(* ... and so is every extension of it *)
+Theorem trailing_bytes_400 : forall bnd lim a b s', a <> [] -> b <> [] ->
+  feed bnd lim init_state a = OEof s' ->
+  req_loop bnd lim (length (a ++ b)) init_state [a ++ b] = RStatus 400.
+Proof. exact trailing_refused. Qed.
+Print Assumptions trailing_bytes_400.
+
+Theorem nothing_delivered_before_declared_length : forall bnd lim chunks rem s fs,
+  req_loop bnd lim rem s chunks = RReady fs -> (rem <= length (concat chunks))%nat.
+Proof. exact req_ready_needs_all. Qed.
+Print Assumptions nothing_delivered_before_declared_length.
+
+Theorem bytes_beyond_declared_length_ignored : forall bnd lim declared chunks,
+  req_loop bnd lim declared init_state chunks =
+  req_loop bnd lim declared init_state [firstn declared (concat chunks)].
+Proof. exact req_ignores_tail. Qed.
+Print Assumptions bytes_beyond_declared_length_ignored.
+
+(* a form field (no MIME type) larger than content_length_limit: 413 *)
+Theorem oversized_form_field_413 : forall key a, ~ In 13 key -> forall s x rest,
+  st s = SepBoundary -> pos s = 0%nat -> rest <> [] -> ~ occurs (make_boundary key) x ->
+  f_mime (cur s) = [] -> f_rdata (cur s) = [] -> a < N.of_nat (length x) ->
+  feed (make_boundary key) (Some a) s (x ++ make_boundary key ++ rest) = OStop 413.
+Proof. exact oversized_field_413. Qed.
+Print Assumptions oversized_form_field_413.
+
+(* once a field is over the limit no continuation of the body can rescue it *)
+Theorem oversized_field_stays_refused : forall bnd lim b s, b <> [] -> st s = SepBoundary ->
+  size_ok lim (cur s) = false -> feed bnd lim s b = OStop 413.
+Proof. exact doomed. Qed.
+Print Assumptions oversized_field_stays_refused.
+
+(* files (entries with a MIME type) of any size and fields within the limit pass *)
+Theorem file_or_small_field_accepted : forall key a, ~ In 13 key -> forall s x rest,
+  st s = SepBoundary -> pos s = 0%nat -> rest <> [] -> ~ occurs (make_boundary key) x ->
+  f_rdata (cur s) = [] -> (f_mime (cur s) <> [] \/ N.of_nat (length x) <= a) ->
+  feed (make_boundary key) (Some a) s (x ++ make_boundary key ++ rest) =
+  feed (make_boundary key) (Some a)
+       (mkst OneCrlfOrEof 0 (rhdr s) empty_file (file_with_data (cur s) (rev x) :: rfiles s) false) rest.
+Proof. exact within_limit_continues. Qed.
+Print Assumptions file_or_small_field_accepted.
+
+Theorem refusal_codes : forall bnd lim ch s c, feed bnd lim s ch = OStop c -> c = 400 \/ c = 413 \/ c = 599.
+Proof. exact feed_status. Qed.
+Print Assumptions refusal_codes.
+
+Example limits_nonvacuous :
+  request_multipart (mklim 3 1000) ex_ct (length ex_body) [ex_body] = RStatus 413 /\       (* field of 4 bytes, limit 3 *)
+  request_multipart (mklim 4 1000) ex_ct (length ex_body) [ex_body] = RReady (map file_of_part ex_parts) /\
+  request_multipart (mklim 4 154) ex_ct (length ex_body) [ex_body] = RStatus 413 /\        (* body of 155 bytes *)
+  request_multipart (mklim 4 1000) ex_ct (length ex_body - 1) [ex_body] = RStatus 400 /\   (* declared one short *)
+  request_multipart (mklim 4 1000) ex_ct (length ex_body + 1) [ex_body ++ [10]] = RStatus 400 /\
+  request_multipart (mklim 4 1000) ex_ct (length ex_body + 1) [ex_body] = RStatus 400 /\   (* body shorter than declared *)
+  request_multipart (mklim 4 1000) [97;47;98] (length ex_body) [ex_body] = RStatus 400.
+Proof. repeat split; vm_compute; reflexivity. Qed.
+
+(* ------------------------------------------------------------------------------------------ *)
+(* 4. tie: leaf functions regenerated from private/http_protocol.h = the model's                *)
+(* ------------------------------------------------------------------------------------------ *)
+Theorem source_separator_is_model : forall b, b < 256 -> g_c12_separator (wraps 8 (Z.of_N b)) = separator b.
+Proof. exact link_separator. Qed.
+Print Assumptions source_separator_is_model.
+Theorem source_to_lower_is_model : forall b, b < 256 -> g_c12_to_lower (wraps 8 (Z.of_N b)) = wraps 8 (Z.of_N (to_lower b)).
+Proof. exact link_to_lower. Qed.
+Print Assumptions source_to_lower_is_model.
+Theorem source_token_char_is_model : forall b, b < 256 ->
+  (Z.leb 32 (wraps 8 (Z.of_N b)) && Z.leb (wraps 8 (Z.of_N b)) 126 && negb (g_c12_separator (wraps 8 (Z.of_N b))))%bool = tchar b.
+Proof. exact link_tchar. Qed.
+Print Assumptions source_token_char_is_model.
